@@ -132,10 +132,14 @@ func VH_C14_String() {
 	vCover("string-roundtrip")
 }
 
-// VH_C14_NulTruncation: a string with an embedded NUL is truncated at it on send.
+// VH_C14_NulTruncation: a string with an embedded NUL is truncated at it on send
+// by both string writers, on plain and encrypted streams; on an encrypted stream
+// the length prefix counts the truncated text (plus terminator), so the value and
+// whatever follows it decode correctly.
 //
 //verif:unwind 10
 func VH_C14_NulTruncation() {
+	enc := vBool("enc")
 	s := vString("s", 5)
 	k := vInt("k")
 	vAssume(k >= 0 && k < len(s))
@@ -143,13 +147,37 @@ func VH_C14_NulTruncation() {
 	for i := 0; i < k; i++ {
 		vAssume(s[i] != 0)
 	}
-	w := &vhStream{}
+	if enc && k > 0 {
+		vAssume(s[0] != BinNullChar)
+	}
+	w := &vhStream{enc: enc}
 	m := NewMessageForStream(w)
-	if m.PutString(vhCtx, s) != nil || m.FinishMessage(vhCtx) != nil {
+	var err error
+	if vBool("viaBytes") {
+		err = m.PutStringBytes(vhCtx, []byte(s))
+	} else {
+		err = m.PutString(vhCtx, s)
+	}
+	tail := vInt64("tail")
+	if err != nil || m.PutInt64(vhCtx, tail) != nil || m.FinishMessage(vhCtx) != nil {
 		vAssume(false)
 	}
-	want := append([]byte(s[:k]), 0)
+	var want []byte
+	if enc {
+		want = append(want, vhBE64(uint64(k+1))...)
+	}
+	want = append(want, s[:k]...)
+	want = append(want, 0)
+	want = append(want, vhBE64(uint64(tail))...)
 	vAssertBytesEqual(w.all(), want, "truncated-at-first-nul")
+	r := &vhStream{enc: enc}
+	r.feed(w.all(), true)
+	rm := NewMessageFromStream(r)
+	g, gerr := rm.GetString(vhCtx)
+	vAssert(gerr == nil, "truncated-string-decodes")
+	vAssertStrEqual(g, s[:k], "truncated-string-value")
+	gt, terr := rm.GetInt64(vhCtx)
+	vAssert(terr == nil && gt == tail, "following-value-intact")
 	vCover("nul-truncated")
 }
 
